@@ -15,4 +15,5 @@ def run(ctx):
             if fs != "default":
                 r.rule += "@" + fs
         out += res
+    out.append(E.normaliser_rule(ctx.syn, "C06", rule="C06.R6"))
     return out
